@@ -171,22 +171,46 @@ def h_pairs(ctx: Any, idx: int, twin: bool = False) -> None:
     a = list(base)
     b = list(base)
     b[j] = other
-    all_nt = {n.definition: n for _, n in live_notations()}
+    # printer: every live notation registered / none registered (the fallback rendering, which is also str())
+    registered = ctx.choose(2, 'printer') == 0
+    all_nt = {n.definition: n for _, n in live_notations()} if registered else {}
     opts = P.PrettyOptions(notations=all_nt)
     ra_args = [x.pretty(opts) for x in a]
     rb_args = [x.pretty(opts) for x in b]
     ctx.assume(ra_args[j] != rb_args[j])
     first, second = (a, b) if ctx.choose(2, 'order') == 0 else (b, a)
     opts2 = P.PrettyOptions(notations=all_nt)
-    r1 = nt(*first).pretty(opts2)
-    r2 = nt(*second).pretty(opts2)
+    # how the applications come about: built directly, or as an instance of a schematic application in which the
+    # argument under test / the first argument was a metavariable (same pattern, possibly another key order inside)
+    how = ctx.choose(3 if nt.arity > 1 else 2, 'built')
+
+    def build(args: list) -> Any:
+        if how == 0:
+            return nt(*args)
+        k = j if how == 1 else (0 if j != 0 else nt.arity - 1)
+        schem = list(args)
+        schem[k] = P.MetaVar(200 + k)
+        return nt(*schem).instantiate({200 + k: args[k]})
+
+    r1 = build(first).pretty(opts2)
+    r2 = build(second).pretty(opts2)
     ctx.count('reached')
     ctx.sample({'notation': label, 'first': r1, 'second': r2})
     if twin:
         ctx.violation('TWIN')
-    ctx.check(r1 != r2, f'C19.pretty.same-text-for-different-arguments[{nt.label}]', lambda: f'{label}: {first!r} and {second!r} both print as {r1!r}')
+    tag = ('registered' if registered else 'unregistered') + '|' + ('direct', 'instance-at-the-argument', 'instance-at-another-argument')[how]
+    ctx.check(r1 != r2, f'C19.pretty.same-text-for-different-arguments[{nt.label}|{tag}]', lambda: f'{label}: {first!r} and {second!r} both print as {r1!r}')
     for k in deps:
-        ctx.check(first[k].pretty(opts) in r1, f'C19.pretty.argument-not-shown[{nt.label}|{k}]', lambda: f'{label}{first!r} prints as {r1!r}')
+        ctx.check(first[k].pretty(opts) in r1, f'C19.pretty.argument-not-shown[{nt.label}|{k}|{tag}]', lambda: f'{label}{first!r} prints as {r1!r}')
+    if how != 0 and nt.arity > 1:
+        # an application that came about as an instance against the directly built application with two arguments
+        # exchanged: different patterns, differently printed arguments, so different text
+        k2 = next(k for k in deps + list(range(nt.arity)) if k != j)
+        if k2 in deps and first[j].pretty(opts) != first[k2].pretty(opts):
+            sw = list(first)
+            sw[j], sw[k2] = sw[k2], sw[j]
+            rs = nt(*sw).pretty(opts2)
+            ctx.check(r1 != rs, f'C19.pretty.same-text-for-different-arguments[{nt.label}|{tag}|against-the-direct-application-with-arguments-exchanged]', lambda: f'{label}: the instance {first!r} and the direct application {sw!r} both print as {r1!r}')
 
 
 # -- pretty steps vs binary instructions ----------------------------------------------------------
